@@ -5,7 +5,7 @@
 set -u
 d="$(readlink -f "$1")"
 export GOFLAGS=-mod=mod GOPROXY=off GOSUMDB=off GOTOOLCHAIN=local
-cd /tmp/mut || exit 2
+cd "${WT:-/tmp/mut}" || exit 2
 git checkout -q -- . ; git clean -fdq; git checkout -q --detach "$(git -C /repo rev-parse HEAD)"
 git apply "$d/patch.diff" || { echo "SEED $d: PATCH-DOES-NOT-APPLY"; exit 1; }
 go build ./... && go build -tags verif ./... || { echo "SEED $d: DOES-NOT-COMPILE"; git checkout -q -- .; exit 1; }
